@@ -219,6 +219,7 @@ class ExprGen:
         if hasattr(obj, "on"):
             poss = list(self.schema.get_possible_types(t))
             self.rng.shuffle(poss)
+            key_types: Dict[str, str] = {}
             for ot in poss[:3]:
                 oh = self.holder_for(ot)
                 subs = []
@@ -234,6 +235,11 @@ class ExprGen:
                         continue  # already selected on the abstract type itself: selecting it again with other arguments would be a conflicting tree
                     m = self.member(oh, ot, fname, 0, level)
                     if m is not None:
+                        # the same response key in two sibling fragments must have the same type (FieldsInSetCanMerge compares types even for
+                        # mutually exclusive parents); an object may refine an interface field covariantly, so this tree would be the caller's error
+                        if key_types.setdefault(m[1]["key"], str(ot.fields[fname].type)) != str(ot.fields[fname].type):
+                            self.skip("conflicting_types_in_sibling_fragments")
+                            continue
                         subs.append(m)
                 if subs:
                     obj.on(ot.name, *[s[0] for s in subs])
